@@ -197,6 +197,7 @@ func runC03(r *Run) {
 	}
 	checkFeePayer(r)
 	checkHookDebits(r, vs)
+	checkBtcDelta(r, "C03.btcdelta")
 }
 
 func signatureSigner(v ssa.Value) bool {
